@@ -156,6 +156,13 @@ class sptensor:
                 f"max subscripts are "
                 f"{tuple(np.max(subs, axis=0) + 1)}"
             )
+            if np.min(subs) < 0:
+                raise ValueError("Subscripts must be non-negative")
+            if vals.size != subs.shape[0]:
+                raise ValueError(
+                    f"Number of subscripts ({subs.shape[0]}) and values ({vals.size}) "
+                    "must be equal"
+                )
         else:
             # In case user provides an empty array in weird format
             subs = np.array([], ndmin=2, dtype=int)
